@@ -47,9 +47,9 @@ class SubProcess(zope.testrunner.feature.Feature):
               len(self.runner.failures), len(self.runner.errors),
               file=self.original_stderr)
         for test, exc_info in self.runner.failures:
-            print(' '.join(str(test).strip().split('\n')),
+            print(' '.join(str(test).strip().splitlines()),
                   file=self.original_stderr)
         for test, exc_info in self.runner.errors:
-            print(' '.join(str(test).strip().split('\n')),
+            print(' '.join(str(test).strip().splitlines()),
                   file=self.original_stderr)
         self.original_stderr.flush()
